@@ -22,7 +22,17 @@ MaxLen == IF "LOGF_LEN" \in DOMAIN IOEnv THEN (IF IOEnv.LOGF_LEN = "5" THEN 5 EL
 Scalars == {[arr |-> FALSE, stress |-> FALSE, n |-> <<x>>, comps |-> <<1>>] : x \in {"a", "ab", "b", "c"}}
 Tuples  == {[arr |-> TRUE, stress |-> FALSE, n |-> <<"a", "c">>, comps |-> <<1, 2>>], [arr |-> TRUE, stress |-> FALSE, n |-> <<"bc", "b">>, comps |-> <<1, 2>>]}
 Names   == Scalars \cup Tuples
-Patterns == {"a", "b", "c"}
+Patterns == {"a", "b", "c", "T"}
+
+\* the convenience sets (add_mc_fields, add_md_fields, add_opt_fields): each is a fixed sequence of add_field calls on
+\* scalar names; the sets SHARE names ("Epot[eV]" is in all three, "Class" and "Step" in two), so that a logger configured
+\* with two sets has every shared column once, at the position of its first definition, holding the LATER set's value
+Sets == {"mc", "md", "opt"}
+SetNames(s) == CASE s = "mc"  -> <<"Class", "Step", "Epot[eV]">>
+                 [] s = "md"  -> <<"Time[ps]", "Epot[eV]", "Ekin[eV]", "T[K]">>
+                 [] s = "opt" -> <<"Class", "Step", "Time", "Epot[eV]", "Fmax[eV/A]">>
+ScalarKey(x) == [arr |-> FALSE, stress |-> FALSE, n |-> <<x>>, comps |-> <<1>>]
+SetKeys == UNION {{ScalarKey(SetNames(s)[i]) : i \in 1..Len(SetNames(s))} : s \in Sets}
 
 \* add_stress_fields(atoms, mask): one array field whose columns are the Voigt components xx yy zz yz xz xy the mask
 \* keeps, in that order, each named after its component; the value in a column is THAT component (not the k-th one)
@@ -37,6 +47,8 @@ FewMasks == {1..6, {}, {4, 6}}
 NameHas(name, p) == CASE name = "a" -> p = "a" [] name = "b" -> p = "b" [] name = "c" -> p = "c"
                        [] name = "ab" -> p \in {"a", "b"} [] name = "bc" -> p \in {"b", "c"}
                        [] name \in {Voigt[j] : j \in 1..6} -> p = "a"          \* "Stress[..][GPa]" contains an "a", no "b", no "c"
+                       [] name \in {"Class", "Fmax[eV/A]"} -> p = "a"
+                       [] name \in {"Time", "Time[ps]", "T[K]"} -> p = "T"
                        [] OTHER -> FALSE
 Matches(k, p) == \E i \in 1..Len(k.n) : NameHas(k.n[i], p)
 
@@ -54,6 +66,16 @@ AddField(k) == /\ defs' = defs + 1
                             ELSE [fields EXCEPT ![IndexOf(k)] = [key |-> k, ver |-> defs + 1]]
                /\ hist' = Append(hist, <<"add", k>>)
 
+\* one add_field on a field list, functionally (shared by the set action and by Run below)
+AddTo(fs, k, v) == LET idx == IF \E i \in 1..Len(fs) : fs[i].key = k THEN CHOOSE i \in 1..Len(fs) : fs[i].key = k ELSE 0
+                   IN IF idx = 0 THEN Append(fs, [key |-> k, ver |-> v]) ELSE [fs EXCEPT ![idx] = [key |-> k, ver |-> v]]
+RECURSIVE AddAll(_, _, _)
+AddAll(fs, d, names) == IF names = <<>> THEN fs ELSE AddAll(AddTo(fs, ScalarKey(Head(names)), d + 1), d + 1, Tail(names))
+
+AddSet(s) == /\ fields' = AddAll(fields, defs, SetNames(s))
+             /\ defs' = defs + Len(SetNames(s))
+             /\ hist' = Append(hist, <<"set", s>>)
+
 RemoveFields(p) == /\ fields' = SelectSeq(fields, LAMBDA f : ~Matches(f.key, p))
                    /\ hist' = Append(hist, <<"remove", p>>) /\ UNCHANGED defs
 
@@ -63,6 +85,7 @@ Next == /\ Len(hist) < (IF RareStart THEN 2 ELSE MaxLen)
         /\ \/ \E k \in Names : AddField(k)
            \/ \E m \in (IF hist = <<>> THEN AllMasks ELSE FewMasks) : AddField(StressKey(m))    \* every mask as a first call, a few later
            \/ \E p \in Patterns : RemoveFields(p)
+           \/ \E s \in Sets : AddSet(s)
 Spec == Init /\ [][Next]_vars
 
 \* columns of the header / of a row: one per scalar field, one per component of an array field
@@ -72,14 +95,23 @@ Columns(fs) == IF Len(fs) = 0 THEN <<>>
 
 LOG_KeysUnique == \A i, j \in 1..Len(fields) : i # j => fields[i].key # fields[j].key
 LOG_RemovedAreGone == (Len(hist) > 0 /\ hist[Len(hist)][1] = "remove") => \A i \in 1..Len(fields) : ~Matches(fields[i].key, hist[Len(hist)][2])
-AllKeys == Names \cup {StressKey(m) : m \in AllMasks}
+AllKeys == Names \cup {StressKey(m) : m \in AllMasks} \cup SetKeys
 \* a stress column is named after the component it holds, and the kept components come in Voigt order
 LOG_StressColumns == \A i \in 1..Len(fields) : fields[i].key.stress =>
     LET k == fields[i].key IN /\ \A c \in 1..Len(k.n) : k.n[c] = Voigt[k.comps[c]]
                               /\ \A c, d \in 1..Len(k.comps) : c < d => k.comps[c] < k.comps[d]
 LOG_ReplaceKeepsPosition ==
-    [][\A k \in AllKeys : (hist' # hist /\ hist'[Len(hist')] = <<"add", k>> /\ IndexOf(k) # 0) =>
+    [][\A k \in AllKeys : (hist' # hist /\ hist'[Len(hist')][1] = "add" /\ hist'[Len(hist')][2] = k /\ IndexOf(k) # 0) =>
             /\ Len(fields') = Len(fields) /\ \A i \in 1..Len(fields) : fields'[i].key = fields[i].key]_vars
+\* a convenience set moves nothing that was there: the old fields keep their positions, the set's missing names are appended
+\* in the set's order, and afterwards every name of the set is a column exactly once, carrying one of THIS call's definitions
+LOG_SetKeepsPositions ==
+    [][(hist' # hist /\ hist'[Len(hist')][1] = "set") =>
+            /\ Len(fields') >= Len(fields) /\ \A i \in 1..Len(fields) : fields'[i].key = fields[i].key]_vars
+LOG_SetComplete == (Len(hist) > 0 /\ hist[Len(hist)][1] = "set") =>
+    LET ns == SetNames(hist[Len(hist)][2]) IN
+      \A j \in 1..Len(ns) : /\ Cardinality({i \in 1..Len(fields) : fields[i].key = ScalarKey(ns[j])}) = 1
+                             /\ fields[IndexOf(ScalarKey(ns[j]))].ver = defs - Len(ns) + j
 
 (* ---- export: every reachable configuration history with its expected columns ----------------------- *)
 RECURSIVE Run(_, _, _)
@@ -87,7 +119,8 @@ Run(h, fs, d) ==     \* replays a history functionally -> fields
     IF Len(h) = 0 THEN fs
     ELSE LET e == Head(h)
              idx == IF \E i \in 1..Len(fs) : fs[i].key = e[2] THEN CHOOSE i \in 1..Len(fs) : fs[i].key = e[2] ELSE 0
-         IN IF e[1] = "add"
+         IN IF e[1] = "set" THEN Run(Tail(h), AddAll(fs, d, SetNames(e[2])), d + Len(SetNames(e[2])))
+            ELSE IF e[1] = "add"
             THEN Run(Tail(h), IF idx = 0 THEN Append(fs, [key |-> e[2], ver |-> d + 1]) ELSE [fs EXCEPT ![idx] = [key |-> e[2], ver |-> d + 1]], d + 1)
             ELSE Run(Tail(h), SelectSeq(fs, LAMBDA f : ~Matches(f.key, e[2])), d)
 LOG_FunctionalAgrees == Run(hist, <<>>, 0) = fields
